@@ -236,7 +236,8 @@ func (w *World) UseEverywhere(fixed opfix.Router, mixed bool, t *Tok) {
 	}
 }
 
-var exchScopes = [][]string{nil, {"openid"}, {"openid", "profile"}, {"openid", "drop"}, {"profile"}, {"openid", "veto"}, {"drop"}, {"openid", "email", "x"}}
+var exchScopes = [][]string{nil, {"openid"}, {"openid", "profile"}, {"openid", "drop"}, {"profile"}, {"openid", "veto"}, {"drop"}, {"openid", "email", "x"},
+	{"openid", "late"}, {"late"}, {"openid", "late", "veto"}, {"openid", "late", "drop"}}
 var allTypes = []string{"TAccess", "TRefresh", "TId", "TJwt", "TUnknown", "TAbsent"}
 
 // naturalType is the token type a pool token would honestly be declared as.
@@ -456,4 +457,39 @@ func (w *World) JWTShaped() *Tok {
 		}
 	}
 	return &Tok{S: b64([]byte(header)) + "." + b64([]byte(payload)) + "." + sig, Kind: "jwt-shaped"}
+}
+
+// RSIntrospection: a resource server that is no OAuth client (key-only: it authenticates with a
+// private_key_jwt assertion, the storage knows its key but no client of that id) introspects a
+// token whose audience names it - obtained by a token exchange with audience = the resource
+// server - and one whose audience does not; on the given router and on the other one.
+func (w *World) RSIntrospection(r opfix.Router) {
+	rs := Cred{Kind: "assert", ID: KeyOnlyRS, Sec: "good"}
+	var live []*Tok
+	for _, t := range w.PoolOf("opaque-at", "jwt-at", "rt") {
+		if c := ClientByID(t.Client); c != nil && !c.Expired && !c.NoExchange && (c.Auth == "AMBasic" || c.Auth == "AMPost") {
+			live = append(live, t)
+		}
+	}
+	w.tag("introspect-by=key-only-resource-server")
+	if len(live) == 0 {
+		w.Introspect(r, rs, w.Present("opaque-at", "jwt-at"))
+		return
+	}
+	subj := drv.Pick(w.R, live)
+	before := len(w.Pool)
+	w.Exchange(r, Exch{Cred: BasicCred(subj.Client), Subj: subj, SubjType: naturalType(subj), Requested: "TAccess",
+		Scopes: []string{"openid"}, Audience: drv.Pick(w.R, [][]string{{KeyOnlyRS}, {subj.Client, KeyOnlyRS}})})
+	other := opfix.Router(1 - int(r))
+	if len(w.Pool) > before {
+		t := w.Pool[before]
+		w.Introspect(r, rs, t)
+		w.Introspect(other, rs, t)
+		if w.R.Bool() { // a failing assertion of the same resource server
+			w.Introspect(r, Cred{Kind: "assert", ID: KeyOnlyRS, Sec: drv.Pick(w.R, []string{"wrong-key", "wrong-aud"})}, t)
+		}
+	}
+	if t := w.PoolOf("opaque-at", "jwt-at"); len(t) > 0 { // not in this token's audience
+		w.Introspect(drv.Pick(w.R, []opfix.Router{r, other}), rs, drv.Pick(w.R, t))
+	}
 }
